@@ -17,7 +17,7 @@ from sim.core import Outcome, dg, exc_site
 
 META = {
     "level": "exploration",
-    "budget": {"quick": {"seconds": 90, "runs": 250},
+    "budget": {"quick": {"seconds": 90, "runs": 500},
                "thorough": {"seconds": 1500, "runs": 10**9}},
     "rule": ("one evaluation = one frame (0-40 rows; key column int / string / float with NaN / categorical with "
              "duplicates; 1-6 input partitions, some empty) x op in {shuffle, sort_values, set_index, "
